@@ -217,7 +217,57 @@ class Exec:
             elif k == "call":
                 for a in x["args"]:
                     self._mut_arg(a, out)
+        # an element changed through a mutable walk changes the sequence walked: `for v in c.iter_mut() { *v = .. }`, `c.iter_mut().for_each(|v| ..)`,
+        # nested (`for row in m.iter_mut() { for v in row.iter_mut() { .. } }`)
+        changed = True
+        while changed:
+            changed = False
+            for x in walk(body):
+                pats, src = None, None
+                if x.get("k") == "for":
+                    pats, src = [x["pat"]], x["iter"]
+                elif x.get("k") == "mcall" and x.get("name") in ("for_each", "try_for_each", "map", "filter_map") and x["args"] and strip(x["args"][0]) is not None \
+                        and strip(x["args"][0]).get("k") == "closure":
+                    pats, src = strip(x["args"][0])["params"], x["recv"]
+                if pats is None:
+                    continue
+                if not any(h in out for p_ in pats for (_, h) in pat_binds(p_)):
+                    continue
+                r = self._mutable_view_root(src)
+                if r is not None and r["hid"] not in out:
+                    out[r["hid"]] = r["name"]
+                    changed = True
         return out
+
+    def _mutable_view_root(self, src):
+        """the local whose elements a loop source hands out mutably (`c.iter_mut()`, `&mut c`, `c.iter_mut().enumerate()/zip(..)/rev()..`), else None"""
+        n = strip(src)
+        mutable = False
+        for _ in range(8):
+            if n is None:
+                return None
+            k = n.get("k")
+            if k == "mcall":
+                if n["name"] in ("iter_mut", "as_mut_slice", "chunks_mut", "chunks_exact_mut", "values_mut", "last_mut", "first_mut", "get_mut", "as_mut"):
+                    mutable = True
+                n = strip(n["recv"])
+                continue
+            if k == "ref":
+                mutable = mutable or bool(n.get("mut"))
+                n = strip(n["x"])
+                continue
+            if k in ("field", "index"):
+                n = strip(n["b"])
+                continue
+            if k == "un":
+                n = strip(n["x"])
+                continue
+            break
+        if n is not None and n.get("k") == "local":
+            t = self.c.ty(n) or ""
+            if mutable or t.startswith("&mut"):
+                return n
+        return None
 
     def _mut_arg(self, a, out):
         if a.get("k") == "ref" and a.get("mut"):
@@ -817,6 +867,10 @@ class Exec:
                 continue
             cid = a0["id"]
             muts = self._mutated_locals(a0["body"])
+            if n.get("k") == "mcall" and any(h in muts for p_ in a0["params"] for (_, h) in pat_binds(p_)):
+                r_ = self._mutable_view_root(n["recv"])
+                if r_ is not None:
+                    muts[r_["hid"]] = r_["name"]
             body_st = st.fork(pc=(), eff=(), exit=None)
             for h, nm in muts.items():
                 body_st.env[h] = ("loopin", nm, "cl%s" % cid)
@@ -842,6 +896,10 @@ class Exec:
                 continue
             it = p.val
             muts = self._mutated_locals(n["body"])
+            if n.get("k") == "for" and any(h in muts for (_, h) in pat_binds(n["pat"])):
+                r_ = self._mutable_view_root(n["iter"])
+                if r_ is not None:
+                    muts[r_["hid"]] = r_["name"]
             body_st = p.fork(pc=(), eff=(), exit=None)
             for h, nm in muts.items():
                 body_st.env[h] = ("loopin", nm, lid)
